@@ -131,7 +131,9 @@ namespace Pistache::Http
         for (const auto& idlePeer : idlePeers)
         {
             ResponseWriter response(Http::Version::Http11, this, static_cast<Http::Handler*>(handler_.get()), idlePeer);
-            response.send(Http::Code::Request_Timeout).then([=](ssize_t) { removePeer(idlePeer); }, [=](std::exception_ptr) { removePeer(idlePeer); });
+            // closing an idle connection is a disconnection like any other: the
+            // handler has to be told before the peer is removed
+            response.send(Http::Code::Request_Timeout).then([=](ssize_t) { handlePeerDisconnection(idlePeer); }, [=](std::exception_ptr) { handlePeerDisconnection(idlePeer); });
         }
     }
 
